@@ -48,6 +48,7 @@ type WSEnd struct {
 	pongsSeen   int
 	deadlineSetsAtLastPong int
 	deadlineSets int
+	torn         int
 }
 
 type WSConnPair struct {
@@ -239,6 +240,12 @@ func (g *G) wsWriteControl(e *WSEnd, typ int) Value {
 	}
 	e.deliver(wsMsg{typ: typ})
 	if typ == websocket.CloseMessage {
+		if e.writing != nil && e.writing != g {
+			// a data message is between begin and flush: its remaining fragments are
+			// refused after the close frame, so the peer sees a torn message
+			e.torn++
+			g.run.obs = append(g.run.obs, e.String()+": close frame sent while a data message was being written (message torn)")
+		}
 		e.wrErr = g.wsErr("websocket: close sent")
 	}
 	return Iface{}
@@ -710,6 +717,16 @@ func init() {
 					g.run.obs = append(g.run.obs, e.String()+": pong received but the read deadline was not renewed afterwards")
 				}
 			}
+		}
+		return I64(int64(n))
+	})
+}
+
+func init() {
+	regV("TornMessages", func(g *G, a []Value) Value {
+		n := 0
+		for _, p := range g.run.env.pairs {
+			n += p.client.torn + p.server.torn
 		}
 		return I64(int64(n))
 	})
